@@ -1,18 +1,31 @@
-(* GENERATED on every run by `harness -translate` from /repo/pkg/sparse/util.go — do not edit. *)
-(* Gallina rendering of the float64 kernels KBNSummer.Add / KBNSummer.Sum, statement by statement (SSA lets). *)
-From Coq Require Import Bool.
-From ET Require Import Model.Scalar.
+(* GENERATED on every run by `harness -translate` from /repo/pkg/sparse/util.go and /repo/pkg/basic/eigentrust.go — do not edit. *)
+(* Gallina rendering of KBNSummer.Add / KBNSummer.Sum and basic.Canonicalize, statement by statement (SSA lets). *)
+From Coq Require Import Bool List.
+From ET Require Import Model.Scalar Model.Sparse.
 
 Definition gen_kbn_add {S : ScalarOps} (s_sum s_compensation value : S) : S * S :=
-  let sum_1 := (add S s_sum value) in
-  let c_1 := (leb S value (sabs S s_sum)) in
-  let s_compensation_1 := add S s_compensation (add S (sub S s_sum sum_1) value) in
-  let s_compensation_2 := add S s_compensation (add S (sub S value sum_1) s_sum) in
-  let s_compensation_3 := if c_1 then s_compensation_1 else s_compensation_2 in
-  let s_sum_1 := sum_1 in
-  (s_sum_1, s_compensation_3).
+  let moreSig_1 := s_sum in
+  let lessSig_1 := value in
+  let c_1 := (ltb S (sabs S moreSig_1) (sabs S lessSig_1)) in
+  let moreSig_2 := lessSig_1 in
+  let lessSig_2 := moreSig_1 in
+  let lessSig_3 := if c_1 then lessSig_2 else lessSig_1 in
+  let moreSig_3 := if c_1 then moreSig_2 else moreSig_1 in
+  let s_sum_1 := add S s_sum value in
+  let truncatedLessSig_1 := (sub S s_sum_1 moreSig_3) in
+  let s_compensation_1 := add S s_compensation (sub S lessSig_3 truncatedLessSig_1) in
+  (s_sum_1, s_compensation_1).
 
 Definition gen_kbn_sum {S : ScalarOps} (s_sum s_compensation : S) : S :=
   (add S s_sum s_compensation).
 
 Definition kbn_translated : bool := true.
+
+Definition gen_canon {S : ScalarOps} (entries : list (nat * S)) : res (list (nat * S)) :=
+  let '(summer_sum_1, summer_compensation_1) := List.fold_left (fun st entry => gen_kbn_add (fst st) (snd st) (snd entry)) entries ((zero S), (zero S)) in
+  let s_1 := (gen_kbn_sum summer_sum_1 summer_compensation_1) in
+  if (eqb S s_1 (zero S)) then ErrZeroSum else
+  let entries_2 := List.map (fun e => (fst e, div S (snd e) s_1)) entries in
+  Ok entries_2.
+
+Definition canon_translated : bool := true.
